@@ -3,7 +3,9 @@
    `ucfgconf drive norm` (random trees, random partial flattening into dotted
    keys, random Go representation, occasional conflicting entry) must return
    the order-free result of UcfgNormalize - or, when the input conflicts and
-   the listed deviation is open, a result of some visiting order.            *)
+   the listed deviation is open, the result of visiting the entries in the
+   recorded order (field order of a struct; the entries of a map are recorded
+   in the order of their key strings, which is the order a map is visited in). *)
 EXTENDS UcfgNormalize, Layers, Json, SequencesExt
 
 Tr  == ndJsonDeserialize("trace_norm.ndjson")
